@@ -165,17 +165,17 @@ class Slot:
             lk.close()
 
     # ---------------------------------------------------------------- lowering
-    def lower_flags(self, std, mode, exceptions=False, extra=()):
-        fl = ["-std=c++" + std, "-O1", "-fno-vectorize", "-fno-slp-vectorize", "-fno-unroll-loops", "-mllvm", "-inline-threshold=100000",
+    def lower_flags(self, std, mode, exceptions=False, extra=(), inline_all=True):
+        fl = ["-std=c++" + std, "-O1", "-fno-vectorize", "-fno-slp-vectorize", "-fno-unroll-loops"] + (["-mllvm", "-inline-threshold=100000"] if inline_all else []) + [
               "-fsanitize=signed-integer-overflow,shift,integer-divide-by-zero,unreachable,return,bool", "-fsanitize-trap=all",
               "-DSBEPP_VERIF", "-w", "-I" + os.path.join(REPO, "sbepp/src")]
         if not exceptions: fl.append("-fno-exceptions")
         fl.append({"checked": "-DSBEPP_ENABLE_ASSERTS_WITH_HANDLER", "unchecked": "-DSBEPP_DISABLE_ASSERTS"}[mode])
         return fl + list(extra)
 
-    def lower(self, name, cpp_text, std="17", mode="unchecked", incs=(), exceptions=False, extra=(), extern_map=None, allow_opaque=False):
+    def lower(self, name, cpp_text, std="17", mode="unchecked", incs=(), exceptions=False, extra=(), extern_map=None, allow_opaque=False, inline_all=True):
         """wrapper TU -> IR -> C.  returns dict(c=path, h=path, cpp=path, info=..., inlined=[...])"""
-        flags = self.lower_flags(std, mode, exceptions, list(extra) + ["-I" + i for i in incs])
+        flags = self.lower_flags(std, mode, exceptions, list(extra) + ["-I" + i for i in incs], inline_all)
         key = hashlib.sha256((cpp_text + "\0" + " ".join(flags) + json.dumps(extern_map or {}, sort_keys=True) + engine_hash()).encode()).hexdigest()[:16]
         base = self.path("units", "%s-%s" % (re.sub(r"\W", "_", name), key), "x")[:-2]
         os.makedirs(base, exist_ok=True)
